@@ -413,7 +413,11 @@ static void create_queues(void) {
 			if (n->inactive && tq && g_chance(1, 2)) {
 				// retarget while inactive: created on the default root, then moved
 				n->q = dispatch_queue_create(n->label, a);
-				dispatch_set_target_queue(n->q, tq);
+				// ... at once, or by the thread that activates it, right before it does (other threads may be inside a
+				// synchronous submission to the still inactive queue by then)
+				// (not where inactive queues are also suspended dozens deep: dispatch_set_target_queue documents a client
+				// crash for that combination)
+				if (G->suspend_inactive || g_chance(1, 2)) dispatch_set_target_queue(n->q, tq); else n->late_tq = tq;
 			} else if (n->retarget_to >= 0) {
 				n->q = dispatch_queue_create(n->label, a);   // only such queues may change their target once active
 			} else {
@@ -641,6 +645,7 @@ static void run_one(qop *op, int client, qitem *from) {
 	}
 	if (op->kind == OP_ACTIVATE) {
 		qn->activated_call = 1; qn->activate_call_stamp = h_stamp();
+		if (qn->late_tq) { h_log("call set_target_queue (still inactive) q%d", op->q); dispatch_set_target_queue(q, qn->late_tq); sim_point(); }
 		h_log("call activate q%d", op->q);
 		dispatch_activate(q);
 		h_log("ret activate q%d", op->q);
